@@ -166,7 +166,7 @@ func (w *World) InvalidOp() *Step {
 	case 25:
 		return w.gatewayCall("inv_reward", "reward", sim.AddrReward, "claimReward", map[string]string{"why": "nothing-to-claim"}, uint32(a0.Lz), pad32(a0.Addr), pad32(s.Addr), big.NewInt(1))
 	case 26, 27, 28, 29, 30:
-		return w.invalidAVS(r.Intn(7))
+		return w.invalidAVS(r.Intn(9))
 	case 31:
 		o := w.pickOper(true)
 		w.fund(o.Acct)
@@ -310,6 +310,17 @@ func (w *World) invalidAVS(which int) *Step {
 		return w.CallFrom("inv_avs", other, "avs", sim.AddrAVS, "createTask", map[string]string{"why": "caller-is-no-avs"}, other.Eth, "task", []byte("hash"), uint64(1), uint64(1), uint64(50), uint64(1))
 	case 5:
 		return w.CallFrom("inv_avs", other, "avs", sim.AddrAVS, "registerOperatorToAVS", map[string]string{"why": "caller-is-no-avs"}, w.Opers[0].Acct.Eth)
+	case 6, 7:
+		// a registered AVS whose owner calls from its task contract, but which has no voting power yet (registered in
+		// this very epoch): the call passes the caller checks and is refused by a later one
+		fresh := sim.NewAccount(fmt.Sprintf("avs-fresh-%d-%d", w.C.Height(), len(w.Steps)))
+		w.fund(fresh)
+		args := append([]interface{}{}, base...)
+		args[0], args[1], args[3], args[6] = fresh.Eth, "avsfresh", fresh.Eth, []string{fresh.Acc.String()}
+		if !w.CallFrom("avs_register_fresh", fresh, "avs", sim.AddrAVS, "registerAVS", map[string]string{}, args...).Ack {
+			return nil
+		}
+		return w.CallFrom("inv_avs", fresh, "avs", sim.AddrAVS, "createTask", map[string]string{"why": "avs-without-voting-power"}, fresh.Eth, "task", []byte("hash"), uint64(1), uint64(1), uint64(50), uint64(1))
 	default:
 		return w.CallFrom("inv_avs", other, "avs", sim.AddrAVS, "registerBLSPublicKey", map[string]string{"why": "garbage-key"}, other.Eth, "name", []byte{1, 2, 3}, []byte{4, 5, 6}, []byte{7, 8, 9})
 	}
